@@ -135,6 +135,18 @@ CHECKS = {
         design='3/C19',
         note=BASE_TRUST + 'A comment line is a line starting with //; Comment + x and explicit indent() on a Comment are outside '
              'the statement.'),
+    'C20': dict(
+        technique='TLA+ token-level model of cpp_gen (CppGen.tla) with SameEntity/NoDefWhenInitialised as TLC invariants; '
+                  'exhaustive replay of all enumerated descriptions through as_decl/as_def/str() with a signature '
+                  'tokenizer; TLC-pool compositions compiled with g++ -fsyntax-only',
+        text='CppGen.tla gives, for every function/constructor/destructor description, the token sequence of the '
+             'declaration and of the definition (defaults and virtual/static/explicit/override/= init only in the '
+             'declaration, owner qualification in the definition, no definition when initialised) and of namespace/struct/'
+             'class blocks; TLC enumerates 31k descriptions, the real renderings are tokenised and compared; random '
+             'compositions of well-formed members in a class in a namespace are accepted by g++.',
+        design='3/C20',
+        note=BASE_TRUST + 'The compiler (g++ 12, -std=c++17, errors only) is the oracle for the last clause; compositions are '
+             'restricted to member combinations C++ itself allows.'),
 }
 
 NOT_YET = {}
